@@ -625,7 +625,7 @@ def run(ctx):
         # the arrival order of two handlers racing for the receive queue depends on scheduling: a schedule on which model
         # and implementation disagree is run once more, alone, and only a repeated disagreement is reported
         ctx.extra["correspondence_rechecked"] = len(suspects)
-        if suspects and len(suspects) <= 40 and not ctx.replay:
+        if suspects and len(suspects) <= 40 and not ctx.replay and not ctx.failures:
             rc2, res2, _ = vlib.run_jsonl("c06", [strip(c) for c in suspects], timeout=900)
             by2 = {r["id"]: r for r in res2}
             for c in suspects:
